@@ -103,7 +103,14 @@ class AndersonAcceleration:
             active = np.linalg.norm(self._Fk[:, 0:mk], axis=0) > round_off
             gamma_k = np.zeros(mk, dtype=float)
             if np.any(active):
-                lstsq_solution = sp.linalg.lstsq(self._Fk[:, 0:mk][:, active], fk)
+                # The columns may as well be linearly dependent although none of them
+                # is small (e.g. after as many iterations as there are unknowns);
+                # truncate the singular values at the same level.
+                lstsq_solution = sp.linalg.lstsq(
+                    self._Fk[:, 0:mk][:, active],
+                    fk,
+                    cond=np.sqrt(np.finfo(float).eps),
+                )
                 gamma_k[active] = lstsq_solution[0]
             # Do the mixing
             xkp1 = gk - np.dot(self._Gk[:, 0:mk], gamma_k)
